@@ -22,6 +22,7 @@ Definition reachable : list string := [].
 Definition calls : list (string * list string) := [].
 Definition shared_writes : list swrite := [].
 Definition unclassified : list swrite := [].
+Definition results_shared : list swrite := [].
 Definition globals_read : list string := [].
 Definition external_globals_read : list string := [].
 Definition w_analysed : list string := [].
@@ -30,6 +31,17 @@ Definition w_reachable : list string := [].
 Definition w_calls : list (string * list string) := [].
 Definition w_shared_writes : list swrite := [].
 Definition w_unclassified : list swrite := [].
+Definition w_results_shared : list swrite := [].
+Definition m_analysed : list string := [].
+Definition m_missing : list string := [].
+Definition m_reachable : list string := [].
+Definition m_calls : list (string * list string) := [].
+Definition m_shared_writes : list swrite := [].
+Definition m_unclassified : list swrite := [].
+Definition m_results_shared : list swrite := [].
+Definition m_globals_read : list string := [].
+Definition m_external_globals_read : list string := [].
+Definition m_receiver_writes : list swrite := [].
 Definition w_globals_read : list string := [].
 Definition w_external_globals_read : list string := [].
 Definition package_globals : list string := [].
@@ -49,6 +61,11 @@ def _c19_regen(repo=None):
     out = os.path.join(root, "coq", "gen", "Effects.v")
     p = subprocess.run([os.path.join(root, "harness", "effects", "regen.sh"), repo], env=env, timeout=600,
                        stdout=subprocess.PIPE, stderr=subprocess.PIPE, text=True)
+    if p.returncode == 3:
+        # the translator itself does not build: a broken tool, not a verdict about the tree
+        import sys
+        err = getattr(sys.modules.get("__main__"), "ToolError", RuntimeError)
+        raise err("harness/effects does not build: " + (p.stderr or p.stdout)[-1500:])
     if p.returncode != 0:
         # the tree does not load / type-check (the harness build reports that as its own violation) or the
         # toolchain is broken: the obligations must not be discharged against a stale file
@@ -58,11 +75,10 @@ def _c19_regen(repo=None):
         _c19_state["report"] = "effect translator failed: " + (p.stderr or p.stdout)[-1500:]
     else:
         rep = ""
-        # the report written by this very run: the newest one
-        reps = sorted(glob.glob(os.path.join(root, "build", "effects", "report-*.txt")), key=os.path.getmtime)
-        if reps:
-            rep = open(reps[-1]).read()
-        bad = [l for l in rep.splitlines() if l.startswith(("SHARED-WRITE", "UNCLASSIFIED", "MISSING"))] + \
+        rf = os.path.join(root, "build", "effects", "report.txt" if repo == "/repo" else "report-scratch.txt")
+        if os.path.exists(rf):
+            rep = open(rf).read()
+        bad = [l for l in rep.splitlines() if l.startswith(("SHARED-WRITE", "UNCLASSIFIED", "MISSING", "RESULT-ALIASES"))] + \
               [l for l in rep.splitlines() if l.startswith("GLOBAL-WRITER")]
         _c19_state["report"] = "effect model regenerated from %s:\n%s" % (repo, "\n".join(bad)[:2400])
     if repo != "/repo" and not _c19_state["restore"]:
@@ -85,7 +101,7 @@ def _c19_report():
 
 CFG = {
  'files': ['bitmap/mask.go', 'bitmap/select.go', 'bitmap/rank.go', 'bitmap/next.go', 'bitmap/slice.go', 'bitmap/toarray.go',
-           'bitmap/get.go', 'bitmap/fromstr32.go', 'bmtree/index.go', 'bmtree/allpaths.go', 'bmtree/decode.go',
+           'bitmap/get.go', 'bitmap/fromstr32.go', 'bitmap/fmt.go', 'bitmap/builder.go', 'bitmap/tailbitmap.go', 'bitmap/of.go', 'bmtree/index.go', 'bmtree/allpaths.go', 'bmtree/decode.go',
            'bitstr/bitstr.go', 'bitword/bitword.go', 'sigbits/sigbits.go', 'sigbits/firstdiff.go', 'sigbits/sharding.go',
            'sigbits/countprefixes.go', 'sigbits/sigbits_countprefixes.go'],
  'go': {'c19.Batch': 'a mixed batch of the listed functions run from T goroutines over shared inputs (harness/c19.go)'},
@@ -105,7 +121,7 @@ CFG = {
  'assumptions': ['sizes as in C01-C17 (64*len(words) < 2^31, 8*len(key) < 2^31); every call is in the domain of its function',
                  'the effect model is as good as the translator (harness/effects: SSA walk, root tracing through IndexAddr/FieldAddr/'
                  'Slice/Phi/Convert/unsafe/uintptr/loads, summaries through calls and closures) and its allow-list of read-only '
-                 'functions outside the module (bytes.Compare/Equal, strings.*, strconv.*, math/bits.*, fmt.Sprint*/Errorf, runtime.KeepAlive, '
+                 'functions outside the module (bytes.Compare/Equal, strings.*, strconv.*, math/bits.*, fmt.Sprint*/Errorf, runtime.KeepAlive, reflect.ValueOf/TypeOf/Value.Kind/Len/Index/Interface, '
                  'github.com/openacid/must); "no shared write in the SSA form" => "the call is a read-only operation" is the trusted '
                  'reading of the model, monitored by the -race runs',
                  'not shown: that the Go compiler and runtime implement read-only functions without hidden shared state'],
@@ -115,5 +131,6 @@ CFG = {
                 'depend only on the locations read. From the source on every run: no listed function nor anything it calls writes through '
                 'a parameter, global, captured variable or unknown pointer (shared_writes = [], unclassified = []), the call graph is closed, '
                 'and every package-level table is written only from init - checked by computation against the regenerated coq/gen/Effects.v.',
- 'shrink_s': 20,
+ # no shrinking: the refs are part of the arguments and a concurrency failure does not replay deterministically
+ 'shrink_s': 0,
 }
